@@ -594,7 +594,8 @@ def basicFieldTable : List (Nat × Option V) := [
   (OXM_FIELD_PBB_ISID, none),
   (OXM_FIELD_TUNNEL_ID, some TunnelIdField.zero),
   (OXM_FIELD_IPV6_EXTHDR, none),
-  (OXM_FIELD_TCP_FLAGS, some TcpFlagsField.zero)
+  (OXM_FIELD_TCP_FLAGS, some TcpFlagsField.zero),
+  (OXM_FIELD_ACTSET_OUTPUT, some ActsetOutputField.zero)
 ]
 
 /-- the ByteArrayField receiver prepared for tun_metadata / xxreg: Length = length or length/2 (uint8) -/
